@@ -171,6 +171,28 @@ def main():
       q.update_quantization_recipe(".*", Q.TFLOperationName.FULLY_CONNECTED, drq)
       return q
     cases.append((name, bq, None, "zero=0" not in name))
+    # the same float model handed over in EXTERNAL-buffer form (the only form a model beyond 2 GB can have): made by the library
+    # itself - a recipe that selects nothing, written through the large-model path - and quantized through the large path again;
+    # the reference is the ordinary path on the ordinary form
+    if len(cases) % 4 == 1:
+      def ext_form(model=model):
+        q0 = quantizer.Quantizer(model)
+        q0.update_quantization_recipe("nomatch_zz", Q.TFLOperationName.FULLY_CONNECTED, None, "no_quantize")
+        os.environ[THRESH] = "0"
+        try:
+          return bytes(q0.quantize().quantized_model)
+        finally:
+          os.environ.pop(THRESH, None)
+      try:
+        ext = ext_form()
+      except Exception:  # pylint: disable=broad-except
+        ext = None
+      if ext is not None:
+        def bqx(model=model, ext=ext):
+          q = quantizer.Quantizer(ext if os.environ.get(THRESH) else model)
+          q.update_quantization_recipe(".*", Q.TFLOperationName.FULLY_CONNECTED, drq)
+          return q
+        cases.append((name + " input=external-form", bqx, None, "zero=0" not in name))
   nrand = 40 if args.tier == "quick" else 1500
   for i in range(nrand):
     scn = rgen.gen(args.seed * 104729 + i, 2, 6)
